@@ -581,16 +581,41 @@ def analyse_matrix_kernel(ck, fn, struct):
             if len(ifs) != 1 or "K" not in ifs[0][0]:
                 raise Unknown("no search conditional in the entry loop")
             ifn = ifs[0][2]
-            c = strip(ifn["c"])
-            if not (c.get("k") == "Bin" and c.get("op") == "=="):
-                raise Unknown("search condition `%s`" % render(c))
-            sides = {str(mk.isym(c["lhs"])), str(mk.isym(c["rhs"]))}
-            if sides != {"ROW", "COL"}:
-                problems.append("search compares %s, expected row == col_ind[entry]" % sorted(sides))
-            then = stmts(ifn["then"])
-            st = [s for s in then if s.get("k") == "Assign"]
-            if len(st) != 1 or mk.vsym(st[0]["lhs"]) != diag or str(mk.isym(st[0]["rhs"])) != "K":
-                problems.append("on a hit diag[row] must receive the entry index")
+            # every store of diag[row] in the search is guarded by equality of row and column on its path
+            hits = []
+            def descend(node, rels):
+                for st_ in stmts(node):
+                    if st_.get("k") == "If":
+                        cc = mk.loc.resolve(st_["c"])
+                        pol = True
+                        while cc.get("k") == "Un" and cc.get("op") == "!":
+                            cc = mk.loc.resolve(cc["e"])
+                            pol = not pol
+                        if not (cc.get("k") == "Bin" and cc.get("op") in ("==", "!=", "<", ">", "<=", ">=")):
+                            raise Unknown("search condition `%s`" % render(st_["c"]))
+                        l_, r_ = str(mk.isym(cc["lhs"])), str(mk.isym(cc["rhs"]))
+                        if {l_, r_} != {"ROW", "COL"}:
+                            raise Wrong("the diagonal search compares %s with %s, expected the row with col_ind[entry]" % (l_, r_))
+                        op_ = cc["op"] if l_ == "ROW" else {"<": ">", ">": "<", "<=": ">=", ">=": "<=", "==": "==", "!=": "!="}[cc["op"]]
+                        neg_ = {"<": ">=", ">": "<=", "<=": ">", ">=": "<", "==": "!=", "!=": "=="}[op_]
+                        descend(st_["then"], rels | {op_ if pol else neg_})
+                        if st_.get("else") is not None:
+                            descend(st_["else"], rels | {neg_ if pol else op_})
+                    elif st_.get("k") == "Assign":
+                        hits.append((st_, set(rels)))
+                    elif st_.get("k") in ("Break", "Continue"):
+                        pass
+                    else:
+                        raise Unknown("statement `%s` in the diagonal search" % render(st_)[:60])
+            descend(ifn, set())
+            if not hits:
+                raise Unknown("the search stores nothing")
+            for st_, rels in hits:
+                if mk.vsym(st_["lhs"]) != diag or str(mk.isym(st_["rhs"])) != "K":
+                    problems.append("line %s: on a hit diag[row] must receive the entry index" % st_.get("l"))
+                if not ("==" in rels or {"<=", ">="} <= rels):
+                    problems.append("line %s: diag[row] receives the entry index on a path where only row %s col_ind[entry] is known, not equality: a row without a diagonal entry gets the position of an off-diagonal entry (e.g. its first entry right of the diagonal) instead of the 'not found' marker" % (
+                        st_.get("l"), " and ".join(sorted(rels)) or "(nothing)"))
             detail = "diag[row] <- row_ptr[rows]; first entry with col_ind[entry]==row overwrites it"
         ck.ob("E2.matrix-kernel", key, not problems, "[%s] " % inst + ("; ".join(problems) if problems else detail), file, fn.line,
               sample={"instantiation": inst, "events": [(str(e[1]), e[2] if isinstance(e[2], str) else "cond", str(e[3])) for e in events][:6]})
@@ -759,9 +784,43 @@ def merge_paths(ck, fn, sig):
     w = whiles[0]
     cfg = fn.cfg
     try:
-        c = strip(w["c"])
-        if not (c.get("k") == "Bin" and c.get("op") == "<" and strip(c["lhs"]).get("k") == "Ref"):
-            raise Unknown("merge loop condition `%s`" % render(c))
+        conj = []
+        def flat(x):
+            x = strip(x)
+            if x.get("k") == "Bin" and x.get("op") == "&&":
+                flat(x["lhs"]); flat(x["rhs"])
+            else:
+                conj.append(x)
+        flat(w["c"])
+        def b_bound(x):
+            """`cur < row_ptr(M)[..]` (or commuted) with M != this -> normalised (cursor ref, bound index node)"""
+            if x.get("k") == "Bin" and x.get("op") in ("<", ">"):
+                l_, r_ = strip(x["lhs"]), strip(x["rhs"])
+                if x["op"] == ">":
+                    l_, r_ = r_, l_
+                rr_ = loc.resolve(r_)
+                if l_.get("k") == "Ref" and l_.get("dk") == "local" and rr_.get("k") == "Index":
+                    a_ = accessor(loc, rr_["b"])
+                    if a_ and a_["name"] == "row_ptr" and a_["obj"] != "this":
+                        return l_, rr_
+            return None
+        bb = [(x, b_bound(x)) for x in conj]
+        main = [(x, r) for x, r in bb if r is not None]
+        extras = [x for x, r in bb if r is None]
+        if len(main) != 1:
+            raise Unknown("merge loop condition `%s` has no unique bound of the B cursor" % render(w["c"])[:80])
+        if extras:
+            # a further conjunct ends the loop with entries of B left, without asking allow_incomplete
+            parent = [n for n in fn.nodes() if n.get("k") == "Block" and any(x is w for x in n.get("s", []))]
+            after = parent[0]["s"][[x is w for x in parent[0]["s"]].index(True) + 1:] if parent else []
+            if any(y.get("noreturn") for st_ in after for y in walk(st_)) or any(is_call(y) and y.get("k") in ("Call", "MCall") and y.get("a") for x in extras for y in walk(x)):
+                raise Unknown("merge loop condition `%s` has extra conjuncts and the code after the loop may handle the remaining entries (not modelled)" % render(w["c"])[:80])
+            ck.ob("E7.no-silent-drop", keybase, False,
+                  "line %s: the merge loop also ends when `%s` becomes false, with entries of %s left and without asking allow_incomplete: with allow_incomplete == false the missing entries are dropped silently instead of reaching XABORTM (a refusal branch testing the same condition inside the loop is unreachable)" % (
+                      w.get("l"), " && ".join(render(x) for x in extras)[:120], accessor(loc, main[0][1][1]["b"])["obj"]),
+                  fn.file, w.get("l"))
+            return None
+        c = {"k": "Bin", "op": "<", "lhs": main[0][1][0], "rhs": main[0][1][1], "i": strip(w["c"]).get("i")}
         bcur = strip(c["lhs"])["d"]
         bname = strip(c["lhs"])["n"]
         bacc = accessor(loc, strip(c["rhs"])["b"]) if strip(c["rhs"]).get("k") == "Index" else None
